@@ -95,7 +95,7 @@ func ruleSegmentsEmitOrFail(c *Ctx, rule string) {
 			// only loops that emit
 			emits := false
 			for _, e := range l.elems {
-				if (&an.Query{Target: func(in ssa.Instruction) bool { _, ok := isBufWrite(in); return ok }, Block: func(in ssa.Instruction) bool { return in == e }}).Search(an.After(e)) != nil {
+				if (&an.Query{Deep: deepDefault, Target: func(in ssa.Instruction) bool { _, ok := isBufWrite(in); return ok }, Block: func(in ssa.Instruction) bool { return in == e }}).Search(an.After(e)) != nil {
 					emits = true
 				}
 			}
@@ -106,6 +106,7 @@ func ruleSegmentsEmitOrFail(c *Ctx, rule string) {
 				n++
 				path := (&an.Query{
 					Facts:      true,
+					Deep:       deepDefault,
 					Block:      func(in ssa.Instruction) bool { _, ok := isBufWrite(in); return ok || in == e },
 					TargetEdge: loopBackEdge(l),
 				}).Search(an.After(e))
